@@ -16,9 +16,9 @@ CLAIMED = {
         note="Preconditions of DESIGN 2.2 are assumed (documented parameter ranges, depth caps that hold the budget, T <= n). Open findings D8-D11 (known_findings.json) are excluded by full signature and reported as KNOWN-FINDING lines. 'Never hangs' = 60 s alarm, then a deterministic budget of 2e7 traced lines per call.",
         ref="4/C01"),
     "C02": dict(
-        technique="property-based testing (Hypothesis): generated boxes x expansion orders x injected split dimensions/fractions (end points included); exact geometric validity predicate (grid tiling with Fraction arithmetic) after every split, also riding on generated algorithm runs",
+        technique="property-based testing (Hypothesis): generated boxes x expansion orders x injected split dimensions/fractions (end points included); exact geometric validity predicate (grid tiling with Fraction arithmetic) after every split, also riding on generated algorithm runs; differential sub-check on array-typed boxes; thorough tier adds a coverage-guided atheris/libFuzzer campaign that drives the same generator (Hypothesis fuzz_one_input) against the same oracle",
         text="Exploration with an oracle that is exact on every explored instance: arity, containment, union == parent and disjoint interiors on the grid induced by all child boundaries (which forces bit-identical shared faces), only split dimensions change, equal sides (8 ulp) for the equal-size classes, centre == midpoint (1 ulp), leaves tile the root. The continuum of real boxes is sampled, not enclosed.",
-        note="Boxes finite with lo<hi and |x|<=1e100. Split outcomes are injected by replacing np.random.randint/uniform in-process with stubs that compute lo+(hi-lo)*u exactly as NumPy documents, u in [0,1).",
+        note="Boxes finite with lo<hi and |x|<=1e100. Split outcomes are injected by replacing np.random.randint/uniform in-process with stubs that compute lo+(hi-lo)*u exactly as NumPy documents, u in [0,1). Boxes include the one-list-object-for-every-axis form [[lo,hi]]*d. Sub-check 'ndarray' compares the tree grown from a NumPy-array-typed box cell for cell with the tree grown from the same box as a list of lists; an exception on the array-typed box is inconclusive. The atheris campaign is an extra of the thorough tier: if it cannot run it is recorded as skipped and can neither raise an alarm nor fail the check.",
         ref="4/C02"),
     "C03": dict(
         technique="stateful property-based testing (Hypothesis RuleBasedStateMachine over deepen/expand histories) plus the same structural invariant after every round of generated runs of every algorithm",
@@ -26,9 +26,9 @@ CLAIMED = {
         note="Only leaves are expanded directly, with the documented newlayer convention (the property's quantifier). Histories are capped at 3000 cells. A crash of the code under test aborts the case (C01's business).",
         ref="4/C03"),
     "C17": dict(
-        technique="property-based testing (Hypothesis, target()-guided) over structured generators of points of each objective's box; bound/finite/purity oracle; enumerated maximiser and wrong-dimension sub-checks",
+        technique="property-based testing (Hypothesis, target()-guided) over structured generators of points of each objective's box; bound/finite/purity oracle; enumerated maximiser and wrong-dimension sub-checks; thorough tier adds a coverage-guided atheris/libFuzzer campaign that drives the same generator (Hypothesis fuzz_one_input) against the same oracle",
         text="Exploration: >1e5 generated points per quick run, concentrated by construction on the thin regions where a violation could hide (maximisers, Garland's cusps k*pi/60, DoubleSine's tmax+-2^-j, DifficultFunc's 0.5+-e^-m, log-scale neighbourhoods of the origin, +-8 ulp neighbours, box end points), f(x) <= fmax with zero tolerance wherever IEEE rounding monotonicity makes the bound exact, attainment at the documented maximisers, purity, history independence (a second instance that evaluated other points, other dimensions and lattice neighbours first must agree), ValueError on wrong-length points. A supremum over a continuum is attacked, not enclosed.",
-        note="Ackley's bound uses a tolerance of 8 ulp(22.7); DoubleSine parameters restricted to the property's quantifier; perturbed variants are seeded through np.random.seed before construction.",
+        note="Ackley's bound uses a tolerance of 8 ulp(22.7); DoubleSine parameters restricted to the property's quantifier; perturbed variants are seeded through np.random.seed before construction. Points are passed as lists of float / int / np.float64 and as 1-D float NumPy arrays (an exception on an array is inconclusive, a wrong, impure or argument-mutating evaluation is a violation). The atheris campaign is an extra of the thorough tier: if it cannot run it is recorded as skipped.",
         ref="4/C17"),
     "C04": dict(
         technique="property-based testing (Hypothesis) with a harness-kept ledger: per-round before/after snapshots of the evidence of every cell, arm and score; expected credit set per algorithm; whole-tree agreement with the history after every round",
@@ -83,7 +83,7 @@ CLAIMED = {
     "C14": dict(
         technique="differential property-based testing (Hypothesis): same case twice in one process; a RuleBasedStateMachine interleaving two instances vs. each alone; fresh-subprocess differential under different PYTHONHASHSEED / heap layouts and against the long-lived worker after a polluter instance; deep comparison of the user's domain object",
         text="Exploration: identical seed + constructor arguments + reward law must give bit-identical point sequences and recommendation (in-process repeat, and across fresh processes with different hash seeds and shifted object ids); a Hypothesis state machine chooses interleavings of two independently constructed instances - whole rounds and split rounds (pull_A ... calls on B ... receive_A), 60 % of the pairs being two instances of the same class - and each must behave as it does alone; the same case run inside a worker that has executed hundreds of other instances (and a polluter of the same class just before) must equal the fresh-process run, which exposes class-level / module-level state; the domain argument is compared with a deep copy taken before construction (values, element types, inner-list identity).",
-        note="Interleavings use RNG-free algorithms on RNG-free partitions (the property's quantifier). A crash common to both runs is aborted. Subprocess differential: 96 cases per quick run (process start-up bound).",
+        note="Interleavings use RNG-free partitions (the property's quantifier); every instance gets its own NumPy generator state, swapped in around each of its calls, so that VROOM - which draws from the global generator - can take part and still sees the stream it sees alone. One repeat case in twelve hands the box over as a 2-D float NumPy array and judges only that the array is not written to. A crash common to both runs is aborted. Subprocess differential: 96 cases per quick run (process start-up bound).",
         ref="4/C14"),
     "C15": dict(
         technique="differential property-based testing (Hypothesis): relabelled time arguments vs. 1..T, and a RuleBasedStateMachine inserting get_last_point() queries vs. the query-free run",
@@ -135,7 +135,7 @@ def main():
             "name": "pbt",
             "path": "pbt/",
             "serves_properties": sorted(CLAIMED),
-            "kind_free_text": "Hypothesis 6.168 property-based / stateful testing over JSON cases, 16 sharded worker processes, explicit oracles (reference models, ledgers, differentials), deterministic JSON reducer, replay files",
+            "kind_free_text": "Hypothesis 6.168 property-based / stateful testing over JSON cases, 16 sharded worker processes, explicit oracles (reference models, ledgers, differentials), deterministic JSON reducer, replay files; thorough tier of C02 and C17 additionally runs atheris/libFuzzer campaigns over the same generators and oracles (pbt/fuzz.py)",
         }],
         "checks": checks,
         "notes": "All checks import PyXAB from /repo's working tree (override: VERIF_REPO). VERIF_SEED selects the Hypothesis seed of every shard. Exit 0 = held, 1 = VIOLATION line, 2 = harness error. Genuine defects repaired in /repo as 'fix:' commits and open findings are listed in known_findings.json.",
